@@ -194,7 +194,7 @@ func authsimRun(r *Run) {
 			break
 		}
 		r.Step++
-		switch t.Pick([]int{30, 25, 30, 8, 7 * boolInt(r.Prop == "C09")}, "auth-op") {
+		switch t.Pick([]int{30, 25, 30, 8, 7 * boolInt(r.Prop == "C09"), 8 * boolInt(a.sqlFaults && len(a.live) > 0)}, "auth-op") {
 		case 0:
 			a.create()
 		case 1:
@@ -215,6 +215,8 @@ func authsimRun(r *Run) {
 		case 4:
 			a.sweep()
 			sweeps++
+		case 5:
+			a.revokeDuringLookup()
 		}
 	}
 	a.checkAll("final")
@@ -327,6 +329,72 @@ func (a *authSim) revoke() {
 		r.Fail("C10", "revoke", what+fmt.Sprintf("|%d", code), "DELETE /access/%s (%s) -> %d %s", tok, what, code, string(body))
 	}
 	a.checkAll("after-revoke-" + what)
+}
+
+// revokeDuringLookup: request A presents a live token and has READ its row when the token is revoked (A is slow to act
+// on what it read); the revocation is acknowledged; request B presents the same token after that. A overlaps the
+// revocation and may go either way; B started after the acknowledgement and must be refused - whatever A is still doing.
+func (a *authSim) revokeDuringLookup() {
+	r, t := a.r, a.r.T
+	k := t.Draw(len(a.live), "overlap-revoke-idx")
+	tok := a.live[k]
+	viaData := t.Chance(1, 2, "overlap-via-data-route")
+	path := "/api/v1/access"
+	if viaData {
+		path = "/api/v1/chain/tip/longest"
+	}
+	parked, release := make(chan struct{}), make(chan struct{})
+	var once sync.Once
+	sqlRowsClosedHook = func(q string) {
+		if strings.Contains(strings.ToLower(q), "tokens") {
+			hit := false
+			once.Do(func() { hit = true })
+			if hit {
+				close(parked)
+				<-release
+			}
+		}
+	}
+	defer func() { sqlRowsClosedHook = nil }()
+	resA, resB := make(chan int, 1), make(chan int, 1)
+	go func() { c, _ := a.w.HTTP("GET", path, nil, bearer(tok)); resA <- c }()
+	select {
+	case <-parked:
+	case cA := <-resA:
+		Infra("revokeDuringLookup: the request with a live token was answered (%d) without reading the tokens table", cA)
+	case <-time.After(30 * time.Second):
+		Infra("revokeDuringLookup: the first request neither read the tokens table nor returned within 30 s of real time")
+	}
+	code, body := a.w.HTTP("DELETE", "/api/v1/access/"+tok, nil, bearer(a.admin))
+	if code != 200 {
+		close(release)
+		<-resA
+		r.Fail("C10", "revoke", fmt.Sprintf("existing|%d|during-a-lookup", code), "DELETE /access/%s while another request had just looked the token up -> %d %s", tok, code, string(body))
+	}
+	a.live = append(a.live[:k], a.live[k+1:]...)
+	a.revoked = append(a.revoked, tok)
+	go func() { c, _ := a.w.HTTP("GET", path, nil, bearer(tok)); resB <- c }()
+	var cB int
+	waited := false
+	select {
+	case cB = <-resB:
+	case <-time.After(300 * time.Millisecond): // B waits for A (it may): let A go on
+		waited = true
+	}
+	close(release)
+	cA := <-resA
+	if waited {
+		cB = <-resB
+	}
+	r.Fault("revocation-between-a-lookup-and-its-use")
+	r.Logf("revoke %s after request A (%s) had read its row -> 200; A -> %d; request B after the revocation -> %d", tok, path, cA, cB)
+	if cB == 200 {
+		r.Fail("C10", "http-auth", "revoked|after-revoke-overlapping-an-older-lookup", "token %s: a request that started after DELETE /access/%s had been answered with 200 was authenticated (GET %s -> 200) while an older request with the same token, which had read the token's row before the revocation, was still in progress (it got %d)", tok, tok, path, cA)
+	}
+	if cB != 401 {
+		r.Fail("C10", "http-auth", fmt.Sprintf("revoked|after-revoke-overlapping-an-older-lookup|%d", cB), "token %s: request after the acknowledged revocation -> %d, expected 401", tok, cB)
+	}
+	a.checkAll("after-revoke-overlapping-lookup")
 }
 
 // authHTTP reports (authenticated?, isAdmin) for a token on GET /api/v1/access.
